@@ -109,7 +109,7 @@ def selftests(traces):
         c = copy.deepcopy(t)
         c["id"] = "selftest/" + tag
         mutate(c["events"][i])
-        want[c["id"]] = (i + 1, clause)
+        want[c["id"]] = (i + 1, clause, t["id"])
         out.append(c)
 
     for t in traces:
@@ -141,11 +141,16 @@ def check_selftests(val, want):
     """Remove the self-test rejections from the validation result; fail if a corruption went unnoticed."""
     mine = [r for r in val["rejected"] if r["id"].startswith("selftest/")]
     val["rejected"] = [r for r in val["rejected"] if not r["id"].startswith("selftest/")]
-    for tid, (line, clause) in sorted(want.items()):
+    real_bad = set(r["id"] for r in val["rejected"] if not r["clause"].startswith("NOTE:"))
+    done = 0
+    for tid, (line, clause, base) in sorted(want.items()):
+        if base in real_bad:
+            continue        # the recorded history itself is rejected (code under test broken): not a usable base
         if not any(r["id"] == tid and r["line"] == line and r["clause"].startswith(clause) for r in mine):
             raise lib.MachineryError("self-test: corrupted history %s was not rejected at step %d by %s (got %s)"
                                      % (tid, line, clause, [r for r in mine if r["id"] == tid]))
-    return len(want)
+        done += 1
+    return done
 
 
 def emit_all(tier, rng):
